@@ -268,10 +268,14 @@ func pathName(v ssa.Value) string {
 		for _, r := range *x.Referrers() {
 			if st, ok := r.(*ssa.Store); ok && st.Addr == ssa.Value(x) {
 				n++
-				only = st
+				// of several stores the first in block order: the variable's initial value, as
+				// the first edge of the phi the variable would be had it not been captured
+				if only == nil || st.Block().Index < only.Block().Index {
+					only = st
+				}
 			}
 		}
-		if n == 1 {
+		if n >= 1 {
 			if _, self := only.Val.(*ssa.Alloc); !self {
 				if nm := pathName(only.Val); nm != "?" {
 					return nm
